@@ -14,6 +14,8 @@ def _worker(task):
         from .entries import make_interp, run_gcode
         model = Model()
         I = make_interp(model, unroll=opts.get('unroll', 1), debug_logging=opts.get('debug_logging', False))
+        if opts.get('param_dups'):
+            I.param_dups = set(opts['param_dups'])
         if opts.get('plain'):
             # second evaluation strategy: no path merging, no loop summaries (must agree with the default one)
             I.merge_ifs = False
@@ -23,6 +25,7 @@ def _worker(task):
         t0 = time.time()
         paths = run_gcode(I, gcode, prep=prep)
         col = Collector(prop)
+        col.extra['opts'] = {k: v for k, v in opts.items() if k in ('param_dups', 'plain')}
         getattr(mod, fnname)(col, gcode, paths, I)
         col.extra['abstract_paths'] = len(paths)
         col.extra['interp_seconds'] = round(time.time() - t0, 2)
@@ -40,7 +43,13 @@ CHEAP = ('G0', 'G10', 'G11', 'G20', 'G21', 'G28', 'G90', 'G91', 'G92', 'M206', '
 def run_path_rules(ctx, modname, fnname, gcodes, **opts):
     if ctx.tier == 'thorough':
         opts = dict(opts, unroll=max(2, opts.get('unroll', 1)), debug_logging=True)
-    tasks = [(ctx.prop, modname, fnname, g, opts) for g in gcodes]
+    tasks = []
+    for g in gcodes:
+        if isinstance(g, tuple):
+            tasks.append((ctx.prop, modname, fnname, g[0], dict(opts, **g[1])))
+        else:
+            tasks.append((ctx.prop, modname, fnname, g, opts))
+    gcodes = [g[0] if isinstance(g, tuple) else g for g in gcodes]
     if ctx.tier == 'thorough':
         plain = dict(opts, plain=True, unroll=1, debug_logging=False)
         tasks += [(ctx.prop, modname, fnname, g, plain) for g in gcodes if g in CHEAP]
